@@ -35,10 +35,23 @@ func genEmuConfig(r *rand.Rand) procdrv.EmuConfig {
 	if r.Intn(3) == 0 {
 		c.MNC = "0" + c.MNC[1:]
 	}
+	if r.Intn(4) == 0 { // digit classes that arithmetic on identity strings gets wrong: all zeros, zeros in front, nines, octal-looking
+		c.MCC = pick(r, "000", "001", "009", "090", "460", "999", "909", c.MCC)
+		if mncLen == 2 {
+			c.MNC = pick(r, "00", "01", "08", "09", "10", "90", "99", c.MNC)
+		} else {
+			c.MNC = pick(r, "000", "001", "008", "010", "012", "089", "100", "900", "999", c.MNC)
+		}
+	}
 	msinLen := total - 3 - mncLen
 	// keep the last four digits + population below 256 in the main sweep (PDU session identity is derived from them)
 	tail := 1 + r.Intn(200)
-	c.IMSI = c.MCC + c.MNC + digits(r, msinLen-4) + fmt.Sprintf("%04d", tail)
+	head := digits(r, msinLen-4)
+	if r.Intn(4) == 0 { // MSIN starting with zeros / nines
+		z := pick(r, "0", "00", "000", "9", "09")
+		head = z + head[len(z):]
+	}
+	c.IMSI = c.MCC + c.MNC + head + fmt.Sprintf("%04d", tail)
 	k, op := rbytes(r, 16), rbytes(r, 16)
 	c.K = hexs(k)
 	opc := sec.ComputeOPc(k, op)
